@@ -24,18 +24,18 @@ theorem tdiv2_add (p s : Int) (h : (0 ≤ p ∧ 0 ≤ s) ∨ (p ≤ 0 ∧ s ≤ 
     conv_rhs => rw [e2, Int.neg_tdiv, Int.tdiv_eq_ediv_of_nonneg (by omega)]
     omega
 
-theorem highOff_even (step : Int) (N : Nat) (hN : N % 2 = 0) :
-    highOff step N = step * ((N / 2 : Nat) : Int) := by
-  unfold highOff
+theorem highOffPinned_even (step : Int) (N : Nat) (hN : N % 2 = 0) :
+    highOffPinned step N = step * ((N / 2 : Nat) : Int) := by
+  unfold highOffPinned
   have e : step * (N : Int) = 2 * (step * ((N / 2 : Nat) : Int)) + 0 := by
     have : (N : Int) = 2 * ((N / 2 : Nat) : Int) := by omega
     rw [this]; push_cast; ring_nf
   rw [e, tdiv2_add _ _ (by rcases le_total 0 (step * ((N / 2 : Nat) : Int)) with h | h <;> omega)]
   simp
 
-theorem highOff_odd (step : Int) (N : Nat) (hN : N % 2 = 1) :
-    highOff step N = step * ((N / 2 : Nat) : Int) + step.tdiv 2 := by
-  unfold highOff
+theorem highOffPinned_odd (step : Int) (N : Nat) (hN : N % 2 = 1) :
+    highOffPinned step N = step * ((N / 2 : Nat) : Int) + step.tdiv 2 := by
+  unfold highOffPinned
   have e : step * (N : Int) = 2 * (step * ((N / 2 : Nat) : Int)) + step := by
     have : (N : Int) = 2 * ((N / 2 : Nat) : Int) + 1 := by omega
     rw [this]; ring
@@ -45,23 +45,23 @@ theorem highOff_odd (step : Int) (N : Nat) (hN : N % 2 = 1) :
   · exact Or.inl ⟨mul_nonneg h (by omega), h⟩
   · exact Or.inr ⟨mul_nonpos_of_nonpos_of_nonneg h (by omega), h⟩
 
-theorem highOff_unit (step : Int) (N : Nat) (h : step = 1 ∨ step = -1) :
-    highOff step N = step * ((N / 2 : Nat) : Int) := by
+theorem highOffPinned_unit (step : Int) (N : Nat) (h : step = 1 ∨ step = -1) :
+    highOffPinned step N = step * ((N / 2 : Nat) : Int) := by
   rcases Nat.mod_two_eq_zero_or_one N with hN | hN
-  · exact highOff_even step N hN
-  · rw [highOff_odd step N hN]
+  · exact highOffPinned_even step N hN
+  · rw [highOffPinned_odd step N hN]
     rcases h with rfl | rfl <;> simp
 
 /-- the `high` samples `ihaar` / `iwavelet` read lie inside the row's own address range
     `[data, data + step·(N−1)]` (reversed for a negative step), whatever the parity of `N`: the truncated pointer
     never leaves the array -/
-theorem high_read_in_row (step : Int) (N i : Nat) (hi : i < N / 2) :
-    (0 ≤ step → 0 ≤ highOff step N + step * (i : Int) ∧
-      highOff step N + step * (i : Int) ≤ step * ((N - 1 : Nat) : Int)) ∧
-    (step ≤ 0 → step * ((N - 1 : Nat) : Int) ≤ highOff step N + step * (i : Int) ∧
-      highOff step N + step * (i : Int) ≤ 0) := by
+theorem highPinned_read_in_row (step : Int) (N i : Nat) (hi : i < N / 2) :
+    (0 ≤ step → 0 ≤ highOffPinned step N + step * (i : Int) ∧
+      highOffPinned step N + step * (i : Int) ≤ step * ((N - 1 : Nat) : Int)) ∧
+    (step ≤ 0 → step * ((N - 1 : Nat) : Int) ≤ highOffPinned step N + step * (i : Int) ∧
+      highOffPinned step N + step * (i : Int) ≤ 0) := by
   rcases Nat.mod_two_eq_zero_or_one N with hN | hN
-  · rw [highOff_even step N hN]
+  · rw [highOffPinned_even step N hN]
     have e : step * ((N / 2 : Nat) : Int) + step * (i : Int) = step * ((N / 2 + i : Nat) : Int) := by
       push_cast; ring
     rw [e]
@@ -72,7 +72,7 @@ theorem high_read_in_row (step : Int) (N i : Nat) (hi : i < N / 2) :
       exact ⟨mul_nonneg hs hq0, mul_le_mul_of_nonneg_left hq hs⟩
     · intro hs
       exact ⟨mul_le_mul_of_nonpos_left hq hs, mul_nonpos_of_nonpos_of_nonneg hs hq0⟩
-  · rw [highOff_odd step N hN]
+  · rw [highOffPinned_odd step N hN]
     have e : step * ((N / 2 : Nat) : Int) + step.tdiv 2 + step * (i : Int)
         = step * ((N / 2 + i : Nat) : Int) + step.tdiv 2 := by
       push_cast; ring
@@ -100,13 +100,32 @@ theorem high_read_in_row (step : Int) (N i : Nat) (hi : i < N / 2) :
       rw [mul_add, mul_one] at h1
       exact ⟨by linarith, by linarith⟩
 
+/-- the `high` samples `ihaar` / `iwavelet` read (as repaired: `high = data + step·(N/2)`) lie inside the row's own address
+    range `[data, data + step·(N−1)]` (reversed for a negative step), whatever the parity of `N` -/
+theorem high_read_in_row (step : Int) (N i : Nat) (hi : i < N / 2) :
+    (0 ≤ step → 0 ≤ highOff step N + step * (i : Int) ∧
+      highOff step N + step * (i : Int) ≤ step * ((N - 1 : Nat) : Int)) ∧
+    (step ≤ 0 → step * ((N - 1 : Nat) : Int) ≤ highOff step N + step * (i : Int) ∧
+      highOff step N + step * (i : Int) ≤ 0) := by
+  unfold highOff
+  have e : step * ((N / 2 : Nat) : Int) + step * (i : Int) = step * ((N / 2 + i : Nat) : Int) := by
+    push_cast; ring
+  rw [e]
+  have hq : ((N / 2 + i : Nat) : Int) ≤ ((N - 1 : Nat) : Int) := by omega
+  have hq0 : (0 : Int) ≤ ((N / 2 + i : Nat) : Int) := by omega
+  constructor
+  · intro hs
+    exact ⟨mul_nonneg hs hq0, mul_le_mul_of_nonneg_left hq hs⟩
+  · intro hs
+    exact ⟨mul_le_mul_of_nonpos_left hq hs, mul_nonpos_of_nonpos_of_nonneg hs hq0⟩
+
 /-- the pointer is right: `high = data + step·(N/2)` -/
 def HighOK (step : Int) (N : Nat) : Prop := highOff step N = step * ((N / 2 : Nat) : Int)
 
-theorem highOK_of (step : Int) (N : Nat) (h : N % 2 = 0 ∨ step = 1 ∨ step = -1) : HighOK step N := by
-  rcases h with h | h
-  · exact highOff_even step N h
-  · exact highOff_unit step N h
+/-- as repaired the pointer is right for every stride and every length -/
+theorem highOK_all (step : Int) (N : Nat) : HighOK step N := rfl
+
+theorem highOK_of (step : Int) (N : Nat) (_h : N % 2 = 0 ∨ step = 1 ∨ step = -1) : HighOK step N := rfl
 
 /-! ### the row store -/
 
